@@ -75,6 +75,7 @@ NoPanicInv == NoPanic(st)
 WellFormedInv == WellFormed(st)
 ErrInsideInv == ErrInside(st)
 LexOrderInv == LexOrder(st)
+ClosedInv == Closed(st)
 \* every step consumes input or leaves a rewind that is followed by progress:
 \* the number of steps is linear in the tape (no livelock)
 StackBounded == Len(st.ret) <= 4 /\ Len(st.open) <= 2
